@@ -84,7 +84,7 @@ ASSUMPTIONS = (
 NAMES = 'uvwxyz'
 SEPS = ('-', '.', '_', '+')
 CONVS = ('int', 'int(2)', 'int(num_digits=3)', 'int(min=10)', 'int(max=50)', 'uuid', 'float',
-         'int(min=5, max=45)')
+         'int(min=5, max=45)', 'int(min=0)', 'int(max=0)', 'float(min=0)', 'float(max=0.0)', 'float(min=2, max=7)')
 LITS = ('a', 'b', 'c', '7', 'a-b', 'x.y', '42', '(z)', '$', '', "it's", 'q\\', 't\\t')
 LIT_W = (6, 5, 3, 2, 2, 1, 1, 1, 1, 1)
 LIT_W_OPEN = LIT_W + (1, 1, 1)
@@ -92,7 +92,7 @@ U1 = '6a2f41a3-c54c-4cd1-9f3e-2d1c7e9b5a01'
 VALS = {
     None: ('zz', '7', 'a', '42', 'a-b', 'b'),
     'int': ('7', '42', '123', '007', '5', '-5', 'zz', '10', '50', '45'),
-    'float': ('1.5', '7', 'zz'),
+    'float': ('1.5', '7', 'zz', '-1.5', '0', '-0.0', '8.25'),
     'uuid': (U1, U1.replace('-', ''), 'zz'),
     'path': ('zz',),
 }
